@@ -229,9 +229,9 @@ class RenderContext:
             try:
                 return obj["first"]
             except (KeyError, IndexError, TypeError):
-                if isinstance(obj, Mapping) and obj:
-                    first = next(iter(obj))
-                    return (first, obj[first])
+                if isinstance(obj, Mapping):
+                    for first in obj:
+                        return (first, obj[first])
                 if isinstance(obj, Sequence):
                     return obj[0]
                 raise
@@ -267,9 +267,9 @@ class RenderContext:
             try:
                 return await _get_item(obj, "first")
             except (KeyError, IndexError, TypeError):
-                if isinstance(obj, Mapping) and obj:
-                    first = next(iter(obj))
-                    return (first, await _get_item(obj, first))
+                if isinstance(obj, Mapping):
+                    for first in obj:
+                        return (first, await _get_item(obj, first))
                 if isinstance(obj, Sequence):
                     return await _get_item(obj, 0)
                 raise
